@@ -249,7 +249,7 @@ func judgeRun(o *fw.Outcome, res *procdrv.Result, wantBanner bool) {
 		return
 	}
 	if res.TimedOut {
-		if strings.Contains(res.BlockedIn, "recvmsg") {
+		if strings.Contains(res.BlockedIn, "recvmsg") && !strings.HasPrefix(res.BlockedIn, "unstable") {
 			o.Fail("emulator-stuck", "the AMF behaved conformantly and is quiescent, but the emulator is blocked in %s after %v\n conversation:%s\n stdout tail: %s", res.BlockedIn, res.Duration.Round(time.Second), conversationSummary(a, 60), tail(res.Stdout, 300))
 		} else {
 			o.Inconcl("watchdog fired after %v (emulator in %q)", res.Duration.Round(time.Second), res.BlockedIn)
